@@ -87,7 +87,8 @@ func (w *WideQ) SQL(plant int, wrapFn string) string {
 func (w *WideQ) opts() Opts { return Opts{Wrapped: w.Wrapped} }
 
 var wideConstructs = []string{"filter", "case", "in-list", "between", "fn-args", "group", "group-having", "group-by-expr", "whole-agg", "join", "left-join", "parallel-join",
-	"hash-join", "cte", "cte-twice", "derived", "sel-sub", "sel-sub-root", "in-sub", "exists", "not-exists", "union", "union-all", "order-limit", "distinct", "nested-from", "star-sub", "like-is", "join-derived", "cte-join", "in-sub-root", "exists-outer", "having-agg"}
+	"hash-join", "cte", "cte-twice", "derived", "sel-sub", "sel-sub-root", "in-sub", "exists", "not-exists", "union", "union-all", "order-limit", "distinct", "nested-from", "star-sub", "like-is", "join-derived", "cte-join", "in-sub-root", "exists-outer", "having-agg",
+	"derived-cte", "join-derived-cte", "in-sub-cte", "sel-sub-cte", "exists-cte", "cte-union", "cte-nested"}
 
 func genWide(t *rapid.T, only []string) *WideQ {
 	doc, sc := genC07Doc(t)
@@ -208,6 +209,21 @@ func genWideOn(t *rapid.T, doc map[string]any, sc *c07Schema, only []string) *Wi
 	case "having-agg":
 		w.Tpl = fmt.Sprintf("SELECT %s, SUM(%s) AS sv FROM {T}%s GROUP BY %s HAVING {F@having-aggregate:SUM(%s)} %s %s", k, v, optWhere("w", ""), k, v, op("hop"), num("hc"))
 		w.Unordered = true
+	case "derived-cte":
+		w.Tpl = fmt.Sprintf("SELECT x.%s, x.w FROM (WITH c AS (SELECT %s, {F@cte-in-derived-table:%s} AS w FROM {T}%s) SELECT * FROM c) x", k, k, v, optWhere("w", ""))
+	case "join-derived-cte":
+		w.Tpl = fmt.Sprintf("SELECT * FROM (WITH c AS (SELECT {F@cte-in-join-side:%s} AS k2 FROM {T}) SELECT * FROM c) x %s {T2} y ON x.k2 = y.%s", k, rapid.SampledFrom([]string{"JOIN", "LEFT JOIN", "HASH_JOIN"}).Draw(t, "kw"), c2)
+		w.Unordered = true
+	case "in-sub-cte":
+		w.Tpl = fmt.Sprintf("SELECT %s, %s FROM {T} WHERE %s IN (WITH c AS (SELECT {F@cte-in-in-subquery:%s} FROM %s) SELECT %s FROM c)", k, s, k, p, items, p)
+	case "sel-sub-cte":
+		w.Tpl = fmt.Sprintf("SELECT %s, (WITH c AS (SELECT {F@cte-in-select-subquery:%s} FROM %s) SELECT %s FROM c WHERE %s %s %s) AS sb FROM {T}%s", k, p, items, p, p, op("sop"), num("sc"), optWhere("w", ""))
+	case "exists-cte":
+		w.Tpl = fmt.Sprintf("SELECT %s FROM {T} WHERE EXISTS (WITH c AS (SELECT %s FROM %s) SELECT %s FROM c WHERE {F@cte-in-exists:%s} %s %s)", k, p, items, p, p, op("eop"), num("ec"))
+	case "cte-union":
+		w.Tpl = fmt.Sprintf("WITH a AS (SELECT {F@cte-body:%s} AS u FROM {T}%s) SELECT u FROM a UNION ALL SELECT {F@union-branch:%s} AS u FROM {T2}", k, optWhere("w", ""), c2)
+	case "cte-nested":
+		w.Tpl = fmt.Sprintf("WITH a AS (WITH b AS (SELECT %s, {F@inner-cte-body:%s} AS w FROM {T}) SELECT %s, w FROM b WHERE w %s %s) SELECT * FROM a", k, v, k, op("op"), num("c"))
 	case "like-is":
 		w.Tpl = fmt.Sprintf("SELECT %s, %s FROM {T} WHERE {F@like-operand:%s} LIKE %s OR {F@is-operand:%s} IS NULL OR %s IS NOT NULL", k, s, s, sq.StrLit(rapid.SampledFrom([]string{"a%", "%b", "_", "%"}).Draw(t, "pat")), "nokey", v)
 	}
